@@ -87,6 +87,22 @@ let run_line line =
                      | (Done (_, _, Inr _, _), l) -> Printf.printf "err %d\n" (List.length l)
                      | _ -> print_endline "SKIP")
        | _ -> print_endline "SKIP")
+    end else if inp = "CLI" then begin
+      (* CLI <stdin lines | -> TAB <argument strings separated by ; or -> TAB <code points of the program text> : Cli.cli_run *)
+      (match String.split_on_char '\t' prog with
+       | [sin; args; text] ->
+           let lines = if sin = "-" then [] else List.map cps (String.split_on_char '|' sin) in
+           let argv = if args = "-" then [] else List.map cps (String.split_on_char ';' args) in
+           (match parse_text (cps text) with
+            | Inr (_, sp) -> print_endline ("SYNTAX @" ^ pspan sp)
+            | Inl asts ->
+                (match cli_run (nat_of_int 4000) asts argv lines with
+                 | Done (_, w, Inl (VInt n), _) -> Printf.printf "S %s\tOUT %s\tREST %d\n" (BZ.to_string (bz_of_z n)) (pstr w.w_out) (List.length w.w_in)
+                 | Done (_, _, Inr e, _) when (match e.e_vals with [VInt _; VInt n] -> BZ.equal (bz_of_z n) (BZ.of_int 999) | _ -> false) -> print_endline "UNMODELLED"
+                 | Done (_, w, Inr e, _) -> Printf.printf "E %s\tOUT %s\tREST %d\n" (String.concat "," (List.map (function VInt n -> BZ.to_string (bz_of_z n) | _ -> "?") e.e_vals)) (pstr w.w_out) (List.length w.w_in)
+                 | Done _ -> print_endline "V?"
+                 | _ -> print_endline "FUEL"))
+       | _ -> print_endline "BADLINE")
     end else if inp = "P" then begin
       match parse_text (cps prog) with
       | Inl asts -> print_endline ("OK " ^ String.concat " | " (List.map ser asts))
